@@ -15,6 +15,24 @@ CHECKS = {
     ),
 }
 
+CHECKS.update({
+    "C01": dict(
+        text="every input of five exhaustive layers (all strings <=7/8 bytes over the 14-byte markup alphabet; the same <=5/6 x all 128 configurations; all sequences of <=5/6 multi-byte atoms; construct-specific contexts with and without BOM; the sample documents x 128 configurations) is read by the real borrowing reader and compared event by event (kind, raw content, name/target, error variant and payload, positions) with an independent whole-input reference lexer plus a model of the seven switches; both feature builds",
+        note="small-scope hypothesis; random/grammar-generated documents of unbounded shape are not sampled (different family); two interpretation points the documentation leaves open are tolerated both ways (all-blank end-tag content with name trimming; comment ending in `-` under check_comments); open known findings F7, F8",
+        technique=TECH.format(what="input byte strings x reader configurations", oracle="an independent reference lexer + configuration model"),
+    ),
+    "C02": dict(
+        text="deviation-bounded schedule exploration: every way of cutting each short input (all strings <=5/6 over the markup alphabet, atom sequences, construct contexts with BOM variants) into consecutive pieces (all 2^(n-1) cut sets up to 8/11 bytes, <=2/3 cuts beyond, uniform piece sizes), for the buffered and the hand-polled async reader, the latter with every placement of <=1/2 Poll::Pending answers; each run must equal the borrowing reader's trace (events, errors, both positions after every call, two calls after Eof); the carried scanner state of ElementParser/PiParser is also driven directly over every 3-piece split",
+        note="first piece >= 4 bytes when the input starts with a BOM/UTF-16 signature (stated exception); no real tokio runtime, no cancellation of futures; the borrowing reader's own correctness is C01's business",
+        technique="exhaustive enumeration of environment schedules (chunk boundaries, Pending placements) up to a deviation bound on the real readers, differential against the slice reader (stateless model checking with a controlled environment)",
+    ),
+    "C16": dict(
+        text="for every input of layers A (<=6/7 bytes), C, D and all 128 configurations the real reader's stream is compared with the documented transformation of its own neutral-configuration stream, including the buffer position after every source construct",
+        note="the neutral run is taken as the document's meaning (C01 checks it); open known finding F7 (empty Text with trim_text_end only)",
+        technique=TECH.format(what="inputs x all 128 configurations", oracle="the documented transformation of the implementation's own neutral run (metamorphic oracle)"),
+    ),
+})
+
 PENDING_REASON = "check not built yet (work in progress; see DESIGN.md §9 for the order of work)"
 
 ALL = ["C%02d" % i for i in range(1, 21)]
